@@ -65,6 +65,10 @@ def base_scenarios(tier):
                                     if recorder is not None and path == "order-event":
                                         continue
                                     out.append((npairs, times, layout, derived_first, path, recorder, script, otype))
+                # signals pushed by a job at a bar's own time; only with the signal source subscribed after the bar sources
+                # (a source fed by a job is not DERIVED from the bars: subscribed first it legitimately goes first)
+                for script in singles:
+                    out.append((npairs, times, layout, False, "job-signal", None, script, "market"))
     return out
 
 
@@ -252,6 +256,8 @@ def make_run(base, maxc, states=None):
                     except ex.Error:
                         cancels.append(("cancel-failed", secs(d.now())))
                 for k, (src, dst) in enumerate(script):
+                    if path == "job-signal":
+                        continue  # the signals come from a scheduled job, see below
                     if src == i and ev.when == T(times[src][0]):
                         if path == "signal":
                             sig.push(bs.TradingSignal(ev.when, bs.Position.LONG, PS[dst]))
@@ -300,6 +306,16 @@ def make_run(base, maxc, states=None):
             p = D(100 + t + i)
             return bs.BarEvent(T(t), bs.Bar(T(t - 1), PS[i], p, p, p, p, D(1000)))
 
+        if path == "job-signal":
+            # A job scheduled for exactly a bar's time (a rebalance at midnight with daily bars) pushes trading signals stamped
+            # with that time; jobs run before the events of their time, so the signal is already queued when the bars of T
+            # are popped. With the signal source subscribed AFTER the bar sources the exchange sees the bars of T first.
+            def mkjob(src, dst):
+                async def job():
+                    sig.push(bs.TradingSignal(T(times[src][0]), bs.Position.LONG, PS[dst]))
+                return job
+            for (src, dst) in script:
+                d.schedule(T(times[src][0]), mkjob(src, dst))
         if derived_first:
             subscribe()
         # The bars of a scenario are loaded ONCE into lists that every run of that scenario is given (each max_concurrent
